@@ -17,7 +17,7 @@ EXPLANATION = (
     "found injections), then for every component and mode get_injection_requests(hints, name, instance) -> find_injections -> "
     "instance.__dict__.update(found), all before any setup(); requests are computed per instance, also when several components share "
     "one class; _collect_injectables offers exactly the robot attributes that are public, not excluded, not properties/tunables and "
-    "not bound methods, as the objects themselves.  C08.O5 constructor and attribute injection use the same two functions."
+    "not bound methods, as the objects themselves.  C08.O5 constructor and attribute injection use the same two functions.  _collect_injectables offers every plain public attribute of the robot class that is not in the documented exclusion list (named plain attributes such as control_loop_wait_time included); a name filter other than the exclusion list must not drop one."
 )
 RULE = "one case = one path of find_injections / get_injection_requests / _collect_injectables / _create_components"
 EXHAUSTIVE = True
